@@ -224,7 +224,7 @@ impl Spec for C07 {
         }
     }
 
-    fn apply(&self, ax: &mut Axecutor, m: &M, op: &Op) -> Result<Option<M>, Divergence> {
+    fn apply(&self, ax: &mut Axecutor, m: &M, op: &Op, _soft: &mut Vec<Divergence>) -> Result<Option<M>, Divergence> {
         let before = crate::emu::fingerprint(ax);
         let mut m2 = m.clone();
         match op {
@@ -235,7 +235,7 @@ impl Spec for C07 {
                 let fits = *value <= mask(*acc);
                 let r = do_write(ax, *acc, v.sr, *value);
                 let r = match r {
-                    Err(p) => return Err(div(format!("write{acc}|panic@{}|{cls}", p.loc), format!("reg_write_{acc}({view}, {value:#x}) panicked: {}", crate::emu::first_line(&p.msg)))),
+                    Err(p) => return Err(div(format!("write{acc}|panic@{}|{cls}", p.tag()), format!("reg_write_{acc}({view}, {value:#x}) panicked: {}", crate::emu::first_line(&p.msg)))),
                     Ok(r) => r,
                 };
                 if legal_view && fits {
@@ -262,7 +262,7 @@ impl Spec for C07 {
                 let cls = view_class(&v);
                 let legal_view = (v.bits == *acc && v.full < 16) || (v.name == "RIP" && *acc == 64);
                 let r = match do_read(ax, *acc, v.sr) {
-                    Err(p) => return Err(div(format!("read{acc}|panic@{}|{cls}", p.loc), format!("reg_read_{acc}({view}) panicked: {}", crate::emu::first_line(&p.msg)))),
+                    Err(p) => return Err(div(format!("read{acc}|panic@{}|{cls}", p.tag()), format!("reg_read_{acc}({view}) panicked: {}", crate::emu::first_line(&p.msg)))),
                     Ok(r) => r,
                 };
                 if !legal_view && r.is_ok() {
@@ -282,7 +282,7 @@ impl Spec for C07 {
             let got = match do_read(ax, v.bits, v.sr) {
                 Ok(Ok(x)) => x,
                 Ok(Err(e)) => return Err(div(format!("{opname}|readback-rejected|{}", view_class(&v)), format!("reg_read_{}({}) failed after {op:?}: {}", v.bits, v.name, crate::emu::first_line(&e)))),
-                Err(p) => return Err(div(format!("{opname}|readback-panic@{}|{}", p.loc, view_class(&v)), format!("reg_read_{}({}) panicked after {op:?}", v.bits, v.name))),
+                Err(p) => return Err(div(format!("{opname}|readback-panic@{}|{}", p.tag(), view_class(&v)), format!("reg_read_{}({}) panicked after {op:?}", v.bits, v.name))),
             };
             let want = model_read(&m2, &v);
             if got != want {
